@@ -114,6 +114,7 @@ type Ops struct {
 	pending    map[planKey]*go9p.SrvReq
 	destroys   map[*go9p.SrvFid]int
 	flushModes map[planKey]string
+	active     map[*go9p.SrvReq]bool // requests currently inside a callback
 	Dotu       bool
 }
 
@@ -130,7 +131,7 @@ func (o *Ops) SetFlushMode(conn int, tag uint16, mode string) {
 
 func New(log *Log) *Ops {
 	return &Ops{Log: log, plans: map[planKey][]*Plan{}, aplans: map[string]*Plan{}, conns: map[*go9p.Conn]int{},
-		pending: map[planKey]*go9p.SrvReq{}, destroys: map[*go9p.SrvFid]int{}, flushModes: map[planKey]string{}}
+		pending: map[planKey]*go9p.SrvReq{}, destroys: map[*go9p.SrvFid]int{}, flushModes: map[planKey]string{}, active: map[*go9p.SrvReq]bool{}}
 }
 
 // SetPlan registers the plan for the next request (conn, tag).
@@ -301,6 +302,9 @@ func (o *Ops) enter(req *go9p.SrvReq, op, args string) (int, *Plan, int64) {
 		at = o.tok(req.Afid)
 	}
 	o.Log.Add(Event{Kind: "op", Conn: conn, Tag: tag, Op: op, Fid: ft, Newfid: nt, Afid: at, User: uid(req.Fid), Args: args})
+	o.mu.Lock()
+	o.active[req] = true
+	o.mu.Unlock()
 	if p.Entered != nil {
 		close(p.Entered)
 	}
@@ -312,6 +316,9 @@ func (o *Ops) enter(req *go9p.SrvReq, op, args string) (int, *Plan, int64) {
 
 func (o *Ops) finish(req *go9p.SrvReq, conn int, p *Plan, op string, answer func()) {
 	tag := req.Tc.Tag
+	o.mu.Lock()
+	delete(o.active, req)
+	o.mu.Unlock()
 	if p.NoAnswer {
 		o.mu.Lock()
 		o.pending[planKey{conn, tag}] = req
@@ -545,6 +552,11 @@ func (o *Ops) flush(req *go9p.SrvReq) {
 	tag := req.Tc.Tag
 	o.mu.Lock()
 	mode := o.flushModes[planKey{conn, tag}]
+	if mode == "cancel" && !o.active[req] {
+		// an implementation can only cancel (and vouch for having cancelled) a request it is working on;
+		// one that has not reached it yet, or has already left it, is none of its business
+		mode = "cancel-not-mine"
+	}
 	o.mu.Unlock()
 	o.Log.Add(Event{Kind: "flushcb", Conn: conn, Tag: tag, Op: "Flush", Info: mode})
 	if mode == "cancel" {
@@ -598,6 +610,12 @@ func (o *Ops) authInit(afid *go9p.SrvFid, aname string) (*go9p.Qid, error) {
 	p := o.authPlan(aname)
 	t := o.tok(afid)
 	o.Log.Add(Event{Kind: "op", Conn: connOf(o, afid), Op: "AuthInit", Afid: t, User: uid(afid), Args: fmt.Sprintf("aname=%q", aname)})
+	if p.Entered != nil {
+		close(p.Entered)
+	}
+	if p.Gate != nil {
+		<-p.Gate
+	}
 	if p.Err != "" {
 		return nil, &go9p.Error{Err: p.Err, Errornum: p.Errnum}
 	}
